@@ -55,3 +55,8 @@ pub fn parse_i16(s: &str) -> (r: Result<i16, ParseIntError>) { unimplemented!() 
 pub fn str_to_string(s: &str) -> (r: String)
     ensures r@ == s@,
 { unimplemented!() }
+
+/// every byte is LF or CR
+pub open spec fn only_line_terminators(s: Seq<u8>) -> bool {
+    forall|j: int| 0 <= j < s.len() ==> #[trigger] s[j] == 10u8 || s[j] == 13u8
+}
